@@ -1029,7 +1029,7 @@ asn_long2INTEGER(INTEGER_t *st, long value) {
 
 int
 asn_ulong2INTEGER(INTEGER_t *st, unsigned long value) {
-    return asn_imax2INTEGER(st, value);
+    return asn_umax2INTEGER(st, value);
 }
 
 /*
